@@ -726,7 +726,17 @@ def lncdf_check(z, fails, notes, extra_feats=None):
         with torch.enable_grad():
             zz = z.clone().requires_grad_(True)
             out = log_normal_cdf(zz)
+            grad1, = torch.autograd.grad(out, zz, torch.ones_like(out), retain_graph=True)
+            # the derivative is a function of z: a second request through the same (retained) graph - Jacobian rows, two losses sharing a
+            # probit term - returns the same numbers
             grad, = torch.autograd.grad(out, zz, torch.ones_like(out))
+            if not torch.equal(grad1, grad):
+                bad_ = (grad1 != grad) & ~(torch.isnan(grad1) & torch.isnan(grad))
+                if bool(bad_.any()):
+                    i_ = int(bad_.nonzero()[0])
+                    _add(fails, "lncdf-grad", f"second backward through the same graph differs from the first at z={float(z[i_])!r}: "
+                         f"{float(grad1[i_])!r} then {float(grad[i_])!r}", f"{int(bad_.sum())} of {z.numel()} entries", **ef)
+            grad = grad1
     except Exception as e:  # noqa: BLE001 -- an exception on finite input is a fail of the value sub-check, not of the harness
         _add(fails, "lncdf-value", util.exc_str(e), f"{z.numel()} finite {dtype} inputs from {float(z.min())!r} to {float(z.max())!r}", **ef)
         return 1
